@@ -15,6 +15,7 @@ import (
 	"runtime/debug"
 	"slices"
 	"sync"
+	"syscall"
 	"time"
 
 	"github.com/rs/zerolog/log"
@@ -112,14 +113,15 @@ func dedupLoop(configArgs map[string]string, w *fsnotify.Watcher, completedChann
 			for _, dir := range dirsToWatch {
 				// adding a directory that is already watched is a no-op
 				if err := w.Add(dir); err != nil {
-					if errors.Is(err, fs.ErrNotExist) {
+					if isNoSuchDirectory(err) {
 						// A referenced package that could not be loaded because its
-						// directory is gone or not there yet. This has been reported as
-						// an error. Watch the nearest directory above it that exists, so
-						// that the directory appearing is noticed.
+						// directory is gone, not there yet, or named by a path that leads
+						// through a file. This has been reported as an error. Watch the
+						// nearest directory above it that exists, so that the directory
+						// appearing is noticed.
 						for parent := filepath.Dir(dir); ; parent = filepath.Dir(parent) {
 							err := w.Add(parent)
-							if err == nil || !errors.Is(err, fs.ErrNotExist) || parent == filepath.Dir(parent) {
+							if err == nil || !isNoSuchDirectory(err) || parent == filepath.Dir(parent) {
 								break
 							}
 						}
@@ -173,6 +175,12 @@ func dedupLoop(configArgs map[string]string, w *fsnotify.Watcher, completedChann
 			timer.Reset(waitFor)
 		}
 	}
+}
+
+// Whether a directory cannot be watched because there is no such directory: a component
+// of its path does not exist, or is a file.
+func isNoSuchDirectory(err error) bool {
+	return errors.Is(err, fs.ErrNotExist) || errors.Is(err, syscall.ENOTDIR)
 }
 
 // Returns the directories to watch after parsing all package imports, or nil if the package could not be loaded
